@@ -517,9 +517,11 @@ class Engine:
         else:
             raise OutOfSubset('range step as value')
         lt = TList(INT)
-        k = z3.Int('k!rng')
+        k = fresh('k', z3.IntSort())
         ln = z3.If(hi > lo, hi - lo, z3.IntVal(0))
-        return V(lt, lt.mk(z3.Lambda([k], lo + k), ln))
+        arr = fresh('rng', z3.ArraySort(z3.IntSort(), z3.IntSort()))
+        ctx.assume(z3.ForAll([k], z3.Select(arr, k) == lo + k))
+        return V(lt, lt.mk(arr, ln))
 
     def bi_isinstance(self, n, ctx, ev):
         v = ev.ev(n.args[0], ctx)
@@ -645,10 +647,12 @@ class Engine:
         it = g.iter
         saved_env = dict(ctx.env)
         k = fresh('k', z3.IntSort())
+        range_lo = None
         if isinstance(it, ast.Call) and isinstance(it.func, ast.Name) and it.func.id == 'range' \
                 and isinstance(g.target, ast.Name):
             args = [to_int(ev.unwrap_opt(ev.ev(a, ctx), ctx)) for a in it.args]
             lo, hi = (z3.IntVal(0), args[0]) if len(args) == 1 else (args[0], args[1])
+            range_lo = lo
             if len(args) > 2:
                 raise OutOfSubset('range step')
             ln = z3.If(hi > lo, hi - lo, z3.IntVal(0))
@@ -669,4 +673,10 @@ class Engine:
         R = fresh('lcomp', lt.sort())
         ctx.assume(lt.n(R) == ln)
         ctx.assume(z3.ForAll([k], z3.Implies(z3.And(0 <= k, k < ln), z3.Select(lt.arr(R), k) == elt.t)))
+        if range_lo is not None:
+            # the same axiom indexed by the loop variable's value (gives the solver a trigger on terms of the element)
+            x = fresh('x', z3.IntSort())
+            elt_x = z3.substitute(elt.t, (k, x - range_lo))
+            ctx.assume(z3.ForAll([x], z3.Implies(z3.And(range_lo <= x, x < range_lo + ln),
+                                                 z3.Select(lt.arr(R), x - range_lo) == elt_x)))
         return V(lt, R)
